@@ -6,6 +6,9 @@ NOTE = ("Trusted: Coq 8.16.1 kernel + vm_compute; constgen/effgen translators; e
         "Go harness and Python generators; math/big, math/bits, encoding/hex, x/crypto/sha3, dchest/blake512, sync.Pool, the Go runtime and the amd64 "
         "assembly are modelled/tied by correspondence only. Axioms per theorem are listed in the evidence file (Print Assumptions).")
 CLAIMS = {
+ 'C04': ('Coq theorems (Properties/C04.v): the projective addition of the code read back in affine form IS the affine twisted-Edwards law for every pair of curve points (complete law: identity, inverses, doubling, small-order points); associativity/commutativity/identity/inverse/closure of that law proved over the prime field (q proved prime by Pocklington certificates); Point.Mul = k-fold addition for every scalar >= 0 of any bit length; Order*P = identity for EVERY curve point (counting argument), Order = 8l, l prime, ord(B8) = l exactly; exhaustive 8x8 small-order table. Model tied to the Go code by regenerated constants and correspondence (impl vs extracted model vs independent Python evaluation) on structured points/scalars.', '6.C04'),
+ 'C09': ('Coq theorems (Properties/C09.v) on the one-limb line-by-line model of ffg/element.go: every operation returns the canonical representative of the exact result for ALL canonical operands (proved by linear arithmetic over the 64-bit word contracts of math/bits, i.e. including every carry/borrow boundary), inverse/div of zero, exp for every exponent, batch inverse for every list, construction from any uint64. Tie: constants regenerated from source + correspondence on boundary-structured operand pairs with all aliasing patterns.', '6.C09'),
+ 'C13': ('Coq theorems (Properties/C13.v): InCurve(x,y) = true iff the curve equation holds mod q (all integers); InSubGroup P = true iff on curve and l*P = O (canonical P); subgroup point + non-trivial small-order point is outside; every multiple of B8 inside; (0,0) and the 7 non-trivial small-order points outside. Tie by regenerated constants + correspondence.', '6.C13'),
  'C06': ('Coq theorems (Properties/C06.v) on the value-level model of Compress/Decompress/PointFromSignAndY: round trip for every canonical curve point, exact acceptance set of Decompress (iff), canonical re-encoding, rejection of y>=q and of non-residues, totality; model tied to the Go code by constants regenerated from source (constgen) and by running the extracted model and the implementation on the same structured + malformed inputs.', '6.C06'),
  'C15': ('Coq theorems (Properties/C15.v): all encoders/decoders (LE bytes, hex, signature/public-key compress, MarshalText/UnmarshalText, Scan/Value) are mutually inverse on canonical values, exact acceptance sets (iff) for HexDecodeInto and the Scan methods, never Panic; tie by correspondence on generated texts/bytes/scan sources of every length 0..200 and every Go dynamic type.', '6.C15'),
  'C20': ('Coq theorem: the streaming Keccak sponge as driven by keccak256.Hash equals one-shot Keccak-256 of the concatenation for every list of slices (Properties/C20.v); digest lengths; Keccak-256/BLAKE-512 Gallina specifications validated inside Coq against 54 digests of the Go libraries and against published vectors; third-party digests tied by correspondence (all block-boundary lengths, splits into <=4 slices).', '6.C20'),
